@@ -80,12 +80,13 @@ Definition print_lit (z : Z) : bytes :=
   end.
 
 (* optional sign, at least one digit, nothing else: the syntax of Rust's [str::parse::<isize>] *)
+Definition split_sign (tok : bytes) : bool * bytes :=
+  match tok with
+  | b :: r => if N.eqb b 45 then (true, r) else if N.eqb b 43 then (false, r) else (false, tok)
+  | [] => (false, tok)
+  end.
 Definition parse_Z (tok : bytes) : option Z :=
-  let sd := match tok with
-            | 45%N :: r => (true, r)
-            | 43%N :: r => (false, r)
-            | _ => (false, tok)
-            end in
+  let sd := split_sign tok in
   match snd sd with
   | [] => None
   | _ => match bytes_uint (snd sd) with
@@ -324,8 +325,10 @@ Definition filler_line (f : filler) : bytes :=
   | FV => b_v ++ [10%N]
   end.
 Definition render_fill (fs : list filler) : bytes := concat (map filler_line fs).
-(* comment text: ASCII without line feed (so that the line structure is the rendered one) *)
-Definition text_ok (t : bytes) : bool := forallb (fun b => N.ltb b 128 && negb (N.eqb b 10)) t.
+(* comment text: ASCII without line feed / carriage return (so that the line structure is the
+   rendered one) *)
+Definition text_ok (t : bytes) : bool :=
+  forallb (fun b => N.ltb b 128 && negb (N.eqb b 10) && negb (N.eqb b 13)) t.
 Definition filler_ok (f : filler) : bool := match f with FText t => text_ok t | _ => true end.
 
 Fixpoint model_lits_from (i : nat) (m : assignment) : list lit :=
